@@ -845,7 +845,7 @@ type distCells struct {
 	eval     *ssa.Call
 	steps    cell
 	rate     cell
-	perCycle *ssa.FreeVar
+	perCycle cell
 	ok       bool
 	why      string
 }
@@ -874,12 +874,12 @@ func findDistCells(fn *ssa.Function) distCells {
 			continue
 		}
 		if u, ok := bo.X.(*ssa.UnOp); ok && u.Op == token.MUL {
-			if fv, ok := u.X.(*ssa.FreeVar); ok {
-				d.steps = cell{name: fv.Name(), fv: fv}
+			if k, ok := cellAt(fn, u.X); ok && isIntType(k.elem()) {
+				d.steps = k
 			}
 		}
 	}
-	if d.steps.fv == nil {
+	if !d.steps.valid() {
 		d.why = "the wrapped rate is evaluated outside a `stepCounter == 0` guard: more (or fewer) than one evaluation per cycle"
 		return d
 	}
@@ -888,16 +888,18 @@ func findDistCells(fn *ssa.Function) distCells {
 		if !ok {
 			continue
 		}
-		fv, isFV := st.Addr.(*ssa.FreeVar)
-		if !isFV {
+		k, isCell := cellAt(fn, st.Addr)
+		if !isCell {
 			continue
 		}
 		if an.Strip(st.Val) == ssa.Value(d.eval) {
-			d.rate = cell{name: fv.Name(), fv: fv}
+			d.rate = k
 		}
-		if fv == d.steps.fv {
+		if d.steps.addrIs(st.Addr) {
 			if u, ok := st.Val.(*ssa.UnOp); ok && u.Op == token.MUL {
-				d.perCycle, _ = u.X.(*ssa.FreeVar)
+				if pc, ok := cellAt(fn, u.X); ok {
+					d.perCycle = pc
+				}
 			}
 		}
 	}
@@ -916,13 +918,26 @@ func c12(c *core.Ctx, r *core.Report) {
 	// the distributing closures, by role: function literals of the package that evaluate a wrapped RateFunction
 	// under a step-counter guard; the random one also calls a captured func(int) int
 	closures := map[string]*ssa.Function{}
-	for _, fn := range c.AllFuncs {
-		if core.RelPkg(fn) != apkg || fn.Parent() == nil {
+	makers := map[string]*ssa.Function{} // the function that creates (and returns) the distributing function value
+	for _, fn := range an.FuncsOfType(c, apiPkg, "RateFunction") {
+		if core.RelPkg(fn) != apkg {
 			continue
 		}
-		// literals returned by a function of signature (…) (time.Duration, RateFunction)
-		par := fn.Parent()
-		if par.Signature.Results().Len() != 2 || !isDuration(par.Signature.Results().At(0).Type()) || !an.IsNamed(par.Signature.Results().At(1).Type(), apiPkg, "RateFunction") {
+		// made by a function that returns it together with a sub-tick duration
+		var maker *ssa.Function
+		for _, g := range c.AllFuncs {
+			if core.RelPkg(g) != apkg || g.Signature.Results().Len() < 2 || !isDuration(g.Signature.Results().At(0).Type()) || !an.IsNamed(g.Signature.Results().At(1).Type(), apiPkg, "RateFunction") {
+				continue
+			}
+			an.Instrs(g, func(in ssa.Instruction) {
+				if mc, ok := in.(*ssa.MakeClosure); ok {
+					if f, isF := mc.Fn.(*ssa.Function); isF && an.Unwrap(f) == fn {
+						maker = g
+					}
+				}
+			})
+		}
+		if maker == nil {
 			continue
 		}
 		kind := "withRegularDistribution"
@@ -934,6 +949,27 @@ func c12(c *core.Ctx, r *core.Report) {
 			}
 		}
 		closures[kind] = fn
+		makers[kind] = maker
+	}
+	durParam := func(fn *ssa.Function) *ssa.Parameter {
+		for _, p := range fn.Params {
+			if isDuration(p.Type()) {
+				return p
+			}
+		}
+		return nil
+	}
+	rateParam := func(fn *ssa.Function) *ssa.Parameter {
+		for _, p := range fn.Params {
+			if an.IsNamed(p.Type(), apiPkg, "RateFunction") {
+				return p
+			}
+		}
+		return nil
+	}
+	is100ms := func(v ssa.Value) bool {
+		k, ok := an.Strip(v).(*ssa.Const)
+		return ok && k.Value != nil && isDuration(k.Type()) && k.Int64() == 100000000
 	}
 
 	rule(r, "C12.R1", "cycle protocol: the wrapped rate is evaluated only when remainingSteps == 0, in the block that reloads remainingSteps = tickSteps and the per-cycle state; remainingSteps is decremented by one exactly once on every path; no other writes", func() {
@@ -949,13 +985,13 @@ func c12(c *core.Ctx, r *core.Report) {
 			steps := dc.steps
 			ev := ssa.CallInstruction(dc.eval)
 			r.OK(name+"#eval-guard", an.Pos(c, ev), "wrapped rate evaluated only when the step counter %s == 0", steps.name)
-			r.Check(dc.perCycle != nil, name+"#reload", an.Pos(c, ev), "step counter reloaded from the steps-per-cycle value together with the evaluation", "the cycle start does not reload the step counter from the steps-per-cycle value")
-			r.Check(dc.rate.fv != nil, name+"#rate-kept", an.Pos(c, ev), "the evaluation's result is kept for the cycle", "the evaluation's result is not stored for the cycle")
+			r.Check(dc.perCycle.valid(), name+"#reload", an.Pos(c, ev), "step counter reloaded from the steps-per-cycle value together with the evaluation", "the cycle start does not reload the step counter from the steps-per-cycle value")
+			r.Check(dc.rate.valid(), name+"#rate-kept", an.Pos(c, ev), "the evaluation's result is kept for the cycle", "the evaluation's result is not stored for the cycle")
 			accReset := false
 			for _, in := range ev.Block().Instrs {
 				if st, ok := in.(*ssa.Store); ok {
-					if fv, ok := st.Addr.(*ssa.FreeVar); ok {
-						if b, isB := fv.Type().(*types.Pointer).Elem().Underlying().(*types.Basic); isB && b.Info()&types.IsFloat != 0 && an.D().Of(st.Val) == "0" {
+					if k, ok := cellAt(fn, st.Addr); ok {
+						if b, isB := k.elem().Underlying().(*types.Basic); isB && b.Info()&types.IsFloat != 0 && an.D().Of(st.Val) == "0" {
 							accReset = true
 						}
 					}
@@ -963,7 +999,7 @@ func c12(c *core.Ctx, r *core.Report) {
 			}
 			// float accumulators must be cleared at cycle start
 			for _, k := range cellsOf(fn) {
-				if b, isB := k.fv.Type().(*types.Pointer).Elem().Underlying().(*types.Basic); isB && b.Info()&types.IsFloat != 0 {
+				if b, isB := k.elem().Underlying().(*types.Basic); isB && b.Info()&types.IsFloat != 0 {
 					r.Check(accReset, name+"#acc-reset("+k.name+")", an.Pos(c, ev), "fractional accumulator "+k.name+" cleared at cycle start", "the fractional accumulator "+k.name+" is not cleared when a new cycle starts: rounding residue leaks from cycle to cycle until a cycle emits rate+1")
 				}
 			}
@@ -1007,47 +1043,81 @@ func c12(c *core.Ctx, r *core.Report) {
 				gd := an.D().Of(g.Cond)
 				if strings.Contains(gd, "== \""+"none"+"\"") && g.Polarity {
 					sawNone = true
-					d0, d1 := an.D().Of(ret.Results[0]), an.D().Of(ret.Results[1])
-					r.Check(d0 == "$iterationDuration" && d1 == "$rateFn", "NewDistribution#none", an.Pos(c, ret), "none returns the parameters unchanged", "distribution none returns ("+d0+", "+d1+") instead of its parameters")
+					ok0 := an.Strip(ret.Results[0]) == ssa.Value(durParam(nd)) && durParam(nd) != nil
+					ok1 := an.Strip(ret.Results[1]) == ssa.Value(rateParam(nd)) && rateParam(nd) != nil
+					r.Check(ok0 && ok1, "NewDistribution#none", an.Pos(c, ret), "none returns the parameters unchanged", "distribution none returns ("+an.D().Of(ret.Results[0])+", "+an.D().Of(ret.Results[1])+") instead of its parameters")
 				}
 			}
 		}
 		r.Check(sawNone, "NewDistribution#none-case", c.Pos(nd.Pos()), "case none present", "NewDistribution has no pass-through case for distribution none")
 		for _, name := range []string{"withRegularDistribution", "withRandomDistribution"} {
-			if closures[name] == nil {
+			if closures[name] == nil || makers[name] == nil {
 				r.Undecided(name, "-", "distributing closure not found")
 				continue
 			}
-			fn := closures[name].Parent()
-			short, long := 0, 0
+			fn := makers[name]
+			dp, rp := durParam(fn), rateParam(fn)
+			// the returns that hand out this distributing function, and the pass-through returns that precede them
+			long := 0
 			for _, ret := range an.Returns(fn) {
-				d0, d1 := an.D().Of(ret.Results[0]), an.D().Of(ret.Results[1])
-				isShort := false
+				if len(ret.Results) < 2 {
+					continue
+				}
+				mc, isMC := an.Strip(ret.Results[1]).(*ssa.MakeClosure)
+				if !isMC {
+					continue
+				}
+				if f, isF := mc.Fn.(*ssa.Function); !isF || an.Unwrap(f) != closures[name] {
+					continue
+				}
+				long++
+				r.Check(is100ms(ret.Results[0]), name+"#long", an.Pos(c, ret), "sub-tick is the constant 100 ms", "for longer intervals "+name+" returns sub-tick "+an.D().Of(ret.Results[0]))
+				// reached only when the interval exceeds 100 ms, the other side returning the parameters
+				short := 0
 				for _, g := range an.GuardsOf(ret.Block()) {
-					gd := an.D().Of(g.Cond)
-					if gd == "($iterationDuration <= 100000000)" && g.Polarity {
-						isShort = true
+					bo, isBin := g.Cond.(*ssa.BinOp)
+					if !isBin || dp == nil || an.Strip(bo.X) != ssa.Value(dp) || !is100ms(bo.Y) {
+						continue
+					}
+					if !((bo.Op == token.LEQ && !g.Polarity) || (bo.Op == token.GTR && g.Polarity)) {
+						continue
+					}
+					other := g.If.Block().Succs[0]
+					if bo.Op == token.GTR {
+						other = g.If.Block().Succs[1]
+					}
+					for _, sret := range an.Returns(fn) {
+						if sret.Block() == other || other.Dominates(sret.Block()) {
+							short++
+							ok0 := an.Strip(sret.Results[0]) == ssa.Value(dp)
+							ok1 := rp != nil && an.Strip(sret.Results[1]) == ssa.Value(rp)
+							r.Check(ok0 && ok1, name+"#short", an.Pos(c, sret), "intervals ≤ 100 ms pass through", "for intervals ≤ 100 ms "+name+" returns ("+an.D().Of(sret.Results[0])+", "+an.D().Of(sret.Results[1])+")")
+						}
 					}
 				}
-				if isShort {
-					short++
-					r.Check(d0 == "$iterationDuration" && d1 == "$rateFn", name+"#short", an.Pos(c, ret), "intervals ≤ 100 ms pass through", "for intervals ≤ 100 ms "+name+" returns ("+d0+", "+d1+")")
-				} else {
-					long++
-					r.Check(d0 == "100000000" && strings.HasPrefix(d1, "closure:"), name+"#long", an.Pos(c, ret), "sub-tick is the constant 100 ms", "for longer intervals "+name+" returns sub-tick "+d0)
-				}
+				r.Check(short >= 1, name+"#cases", an.Pos(c, ret), "the distributing return is reached only for intervals above 100 ms; shorter ones pass through", name+" hands out the distributed rate without a pass-through for intervals ≤ 100 ms")
 			}
-			r.Check(short == 1 && long == 1, name+"#cases", c.Pos(fn.Pos()), "one pass-through return and one distributing return", sprintf("%s has %d pass-through and %d distributing returns", name, short, long))
-			// steps per cycle
-			if cl := closures[name]; cl != nil {
-				if dc := findDistCells(cl); dc.ok && dc.perCycle != nil {
-					if b := an.FreeVarBinding(dc.perCycle); b != nil {
-						d := an.DI().Of(b)
-						r.Check(d == "((time.Duration).Milliseconds($iterationDuration) / (time.Duration).Milliseconds(100000000))", name+"#tickSteps", c.Pos(fn.Pos()), "steps per cycle ← "+d, "steps per cycle is "+d+", not interval_ms / 100")
+			r.Check(long >= 1, name+"#made", c.Pos(fn.Pos()), "the distributing function is returned with its sub-tick", "no return of "+core.FuncName(fn)+" hands out the distributing function")
+			// steps per cycle = interval.Milliseconds() / (100 ms).Milliseconds()
+			if dc := findDistCells(closures[name]); dc.ok && dc.perCycle.valid() {
+				for _, v := range dc.perCycle.initial(c, closures[name]) {
+					okSteps := false
+					qv := an.RootFV(fn, v).Resolve(nil)
+					if q, isQ := qv.V.(*ssa.BinOp); isQ && q.Op == token.QUO {
+						ms := func(x ssa.Value) ssa.Value {
+							xv := an.FV{V: x, F: qv.F}.Resolve(nil)
+							if call, ok := xv.V.(*ssa.Call); ok && isTimeMethod(an.Callee(call), "Duration", "Milliseconds") {
+								return an.FV{V: call.Call.Args[0], F: xv.F}.Resolve(nil).V
+							}
+							return nil
+						}
+						num, den := ms(q.X), ms(q.Y)
+						okSteps = num != nil && den != nil && dp != nil && num == ssa.Value(dp) && is100ms(den)
 					}
-				} else {
-					r.Undecided(name+"#tickSteps", c.Pos(fn.Pos()), "steps-per-cycle value not found")
+					r.Check(okSteps, name+"#tickSteps", c.Pos(fn.Pos()), "steps per cycle ← interval_ms / 100", "steps per cycle is "+an.DI().Of(v)+", not interval_ms / 100")
 				}
+			} else {
+				r.Undecided(name+"#tickSteps", c.Pos(fn.Pos()), "steps-per-cycle value not found")
 			}
 		}
 	})
@@ -1058,7 +1128,7 @@ func c12(c *core.Ctx, r *core.Report) {
 			panic(core.AnchorError{What: "withRandomDistribution closure"})
 		}
 		dc := findDistCells(fn)
-		if !dc.ok || dc.rate.fv == nil {
+		if !dc.ok || !dc.rate.valid() {
 			r.Undecided("random#cells", c.Pos(fn.Pos()), "captured variables not found: %s", dc.why)
 			return
 		}
